@@ -165,7 +165,7 @@ func runProperty(o checkOpts) ([]*funcResult, *Engine, []string, error) {
 		if !hasProp(fs.Props, o.prop) || fs.Trusted || fs.NoBody {
 			continue
 		}
-		if o.only != "" && !strings.Contains(k, o.only) {
+		if o.only != "" && !matchOnly(k, o.only) {
 			continue
 		}
 		fn := e.findFunc(fs.Pkg, fs.Name)
@@ -215,7 +215,7 @@ func runProperty(o checkOpts) ([]*funcResult, *Engine, []string, error) {
 		}
 		sort.Slice(fns, func(i, j int) bool { return calleeName(fns[i]) < calleeName(fns[j]) })
 		for _, fn := range fns {
-			if o.only != "" && !strings.Contains(calleeName(fn), o.only) {
+			if o.only != "" && !matchOnly(calleeName(fn), o.only) {
 				continue
 			}
 			fs := &FuncSpec{Name: strings.TrimPrefix(calleeName(fn), sp.Pkg.Name()+"."), Pkg: cf.Pkg, Props: cf.PkgSweep.Props, Sweep: cf.PkgSweep.Kinds, NoFrame: true, Cheap: true}
@@ -236,7 +236,7 @@ func runProperty(o checkOpts) ([]*funcResult, *Engine, []string, error) {
 		if !hasProp(lem.Props, o.prop) {
 			continue
 		}
-		if o.only != "" && !strings.Contains(lem.Name, o.only) {
+		if o.only != "" && !matchOnly(lem.Name, o.only) {
 			continue
 		}
 		t0 := time.Now()
@@ -349,6 +349,16 @@ func runProperty(o checkOpts) ([]*funcResult, *Engine, []string, error) {
 		}
 	}
 	return results, e, problems, nil
+}
+
+// matchOnly: name contains one of the '|'-separated alternatives of only.
+func matchOnly(name, only string) bool {
+	for _, alt := range strings.Split(only, "|") {
+		if alt != "" && strings.Contains(name, alt) {
+			return true
+		}
+	}
+	return false
 }
 
 func hasProp(ps []string, p string) bool {
